@@ -38,7 +38,7 @@ def run(ctx, rep):
     N.check_time_wiring(r5, r5)
     r6 = rep.rule("one-map", "every track is built with the same tempo map object and the metadata's resolution", floor=4)
     check_from_file_wiring(ctx, r6)
-    check_all_sections(ctx, r6)
+    check_all_sections(ctx, r6, strict=False)
     T.check_folds(r6)
     r7 = rep.rule("note-cursor", "cursor threading cannot misplace a later note", floor=1)
     N.check_grouping(r7, r7)
